@@ -46,6 +46,10 @@ use vmon::{
 use crate::util::{self, run_until_parked};
 
 const BUF: u64 = 8 * 1024;
+/// Output pipes are never truly unbounded: a forwarder that runs away inside one `poll` (e.g. re-sending
+/// the same buffer for ever) must hit back-pressure and return, not eat the machine's memory. Larger than
+/// anything a case offers (<= ~77 KiB), so it never limits a legitimate run.
+const CAP: usize = 1 << 18;
 
 fn tag(dir: u8, i: u64) -> u8 {
     let x = (i ^ ((dir as u64) << 56)).wrapping_mul(0x9E37_79B9_7F4A_7C15);
@@ -189,6 +193,8 @@ fn byte_case(check: &Check, rng: &mut Rng) {
     let (relay_dst, b_client, r2b, b2r) = pipe(sb, Sched::smooth());
     let mut a = Side { name: "a", dir: 1, to_relay: a2r, from_relay: r2a, planned: a_share, written: 0, closed: false, received: 0 };
     let mut b = Side { name: "b", dir: 2, to_relay: b2r, from_relay: r2b, planned: total - a_share, written: 0, closed: false, received: 0 };
+    a.from_relay.set_capacity(Some(CAP));
+    b.from_relay.set_capacity(Some(CAP));
     let mut cx = Ctx { check, max, desc, log: vec![], violated: false };
     let duration = Duration::from_secs(3600);
     let t_before = Instant::now();
@@ -254,7 +260,7 @@ fn byte_case(check: &Check, rng: &mut Rng) {
                 check.count("op_drain", 1);
             }
             4 => {
-                let cap = *rng.pick(&[Some(1usize), Some(10), Some(5000), None]);
+                let cap = *rng.pick(&[Some(1usize), Some(10), Some(5000), Some(CAP)]);
                 let s = if rng.bool() { &a } else { &b };
                 s.from_relay.set_capacity(cap);
                 cx.log.push(format!("back-pressure towards {}: capacity {cap:?}", s.name));
@@ -275,14 +281,14 @@ fn byte_case(check: &Check, rng: &mut Rng) {
             done = true;
             break;
         }
-        if budget_hit {
+        if budget_hit || cx.violated {
             break;
         }
     }
     // end phase: offer the rest, close, drain until resolved or stalled
-    if !done && !budget_hit {
+    if !done && !budget_hit && !cx.violated {
         let mut idle_rounds = 0;
-        for round in 0..100_000u32 {
+        for round in 0..20_000u32 {
             let mut progress = 0u64;
             for s in [&mut a, &mut b] {
                 progress += write_some(s, *rng.pick(&sizes));
@@ -291,19 +297,22 @@ fn byte_case(check: &Check, rng: &mut Rng) {
                     s.closed = true;
                     progress += 1;
                 }
-                s.from_relay.set_capacity(None);
+                s.from_relay.set_capacity(Some(CAP));
             }
             let before = forwarded(&a, &b);
             if poll_fut!(true) {
                 done = true;
                 break;
             }
-            if budget_hit {
+            if budget_hit || cx.violated {
                 break;
             }
             let (aw, bw) = (a.written, b.written);
             progress += drain(&mut cx, &mut a, 2, bw) + drain(&mut cx, &mut b, 1, aw);
             progress += forwarded(&a, &b) - before;
+            if cx.violated {
+                break;
+            }
             if progress == 0 {
                 idle_rounds += 1;
                 if idle_rounds >= 2 {
@@ -312,7 +321,7 @@ fn byte_case(check: &Check, rng: &mut Rng) {
             } else {
                 idle_rounds = 0;
             }
-            if round == 99_999 {
+            if round == 19_999 {
                 budget_hit = true;
             }
         }
@@ -350,6 +359,8 @@ fn duration_case(check: &Check, rng: &mut Rng) {
     let (relay_dst, b_client, r2b, b2r) = pipe(sb, Sched::smooth());
     let mut a = Side { name: "a", dir: 1, to_relay: a2r, from_relay: r2a, planned: 5000, written: 0, closed: false, received: 0 };
     let mut b = Side { name: "b", dir: 2, to_relay: b2r, from_relay: r2b, planned: 5000, written: 0, closed: false, received: 0 };
+    a.from_relay.set_capacity(Some(CAP));
+    b.from_relay.set_capacity(Some(CAP));
     let mut cx = Ctx { check, max, desc, log: vec![], violated: false };
     let t_before = Instant::now(); // before creation: delays can only lengthen the measured time
     let mut fut = copy_future(relay_src, relay_dst, duration, max);
